@@ -339,6 +339,39 @@ def run(rep, drv):
 			import traceback
 			bad('newsvendor', '%s raised %s: %s' % (which, err_enum(e), traceback.format_exc()[-200:]), case)
 
+	call_histories(rep)
+
+
+def call_histories(rep):
+	"""Every function of the family is a function of the arguments of the call: one instance evaluated again with exactly one argument changed,
+	and once more unchanged, gives what the same calls give alone in a fresh interpreter (core.history_check)."""
+	H = core.one_argument_histories
+	calls = []
+	for kw in H(dict(fixed_cost=8, holding_cost=0.225, demand_rate=1300), ['fixed_cost', 'holding_cost', 'demand_rate']):
+		calls.append(('stockpyl.eoq', 'economic_order_quantity', (), kw))
+	for kw in H(dict(fixed_cost=8, holding_cost=0.225, stockout_cost=5, demand_rate=1300), ['stockout_cost', 'fixed_cost']):
+		calls.append(('stockpyl.eoq', 'economic_order_quantity_with_backorders', (), kw))
+	for kw in H(dict(fixed_cost=8, holding_cost=0.225, demand_rate=1300, production_rate=1700), ['production_rate', 'demand_rate']):
+		calls.append(('stockpyl.eoq', 'economic_production_quantity', (), kw))
+	for kw in H(dict(holding_cost=0.18, stockout_cost=0.7, demand_mean=50, demand_sd=8, lead_time=1), ['holding_cost', 'stockout_cost', 'demand_mean', 'demand_sd', 'lead_time']):
+		calls.append(('stockpyl.newsvendor', 'newsvendor_normal', (), kw))
+	for kw in H(dict(holding_cost=1, stockout_cost=4, demand_mean=6), ['holding_cost', 'stockout_cost', 'demand_mean']):
+		calls.append(('stockpyl.newsvendor', 'newsvendor_poisson', (), kw))
+	for kw in H(dict(holding_cost=1, stockout_cost=4, demand_pmf={0: .2, 1: .3, 4: .4, 9: .1}), ['stockout_cost', 'demand_pmf'],
+				lambda k, v: {0: .1, 1: .3, 4: .4, 9: .2} if k == 'demand_pmf' else v * 3):
+		calls.append(('stockpyl.newsvendor', 'newsvendor_discrete', (), kw))
+	for kw in H(dict(fixed_cost=8, holding_cost=0.225, stockout_cost=5, demand_rate=1300, disruption_rate=1.5, recovery_rate=14), ['disruption_rate', 'recovery_rate', 'stockout_cost', 'fixed_cost']):
+		calls.append(('stockpyl.supply_uncertainty', 'eoq_with_disruptions', (), kw))
+	for kw in H(dict(holding_cost=0.25, stockout_cost=3, demand=2000, disruption_prob=0.04, recovery_prob=0.25), ['disruption_prob', 'recovery_prob', 'demand']):
+		calls.append(('stockpyl.supply_uncertainty', 'newsvendor_with_disruptions', (), kw))
+	for kw in H(dict(fixed_cost=18500, holding_cost=0.06, demand_rate=75000, yield_mean=-15000, yield_sd=9000), ['yield_mean', 'yield_sd', 'fixed_cost']):
+		calls.append(('stockpyl.supply_uncertainty', 'eoq_with_additive_yield_uncertainty', (), kw))
+	for kw in H(dict(fixed_cost=18500, holding_cost=0.06, demand_rate=75000, yield_mean=0.8333, yield_sd=0.1443), ['yield_mean', 'yield_sd']):
+		calls.append(('stockpyl.supply_uncertainty', 'eoq_with_multiplicative_yield_uncertainty', (), kw))
+	for kw in H(dict(holding_cost=15, stockout_cost=75, demand=1.5e6, yield_mean=-3e5, yield_sd=1e5), ['yield_mean', 'yield_sd', 'demand']):
+		calls.append(('stockpyl.supply_uncertainty', 'newsvendor_with_additive_yield_uncertainty', (), kw))
+	core.history_check(rep, 'call-history', calls, theorem=THEOREM)
+
 
 def replay(rep, drv, doc):
 	print('replaying the quick stream; recorded case:', doc['stream'], doc['case'])
